@@ -128,7 +128,7 @@ def run(d, rom, waive=()):
         # ---- certificate block
         need(certoff, 12)
         cmagic, cmin, cmaj, csize = struct.unpack_from("<4s2HI", d, certoff)
-        L(ev="CertHeader", at=N(certoff), magicOk=cmagic == b"chdr", major=cmaj, minor=cmin, size=N(csize), _go=cmagic == b"chdr")
+        L(ev="CertHeader", at=N(certoff), magicOk=cmagic == b"chdr", major=cmaj, minor=cmin, _go=cmagic == b"chdr")
         o = certoff + 12
         need(o, 4)
         (rflags,) = struct.unpack_from("<I", d, o)
